@@ -196,3 +196,131 @@ Proof.
   - exists c, []. right. split; [reflexivity|]. apply andb_true_iff in Eb. destruct Eb as [-> _]. reflexivity.
   - rewrite Hp in *. eexists; eexists. left. split; [reflexivity|]. cbn [cvalue]. rewrite Hr. reflexivity.
 Qed.
+
+(** * ranges declared again in the middle of a history *)
+Definition typed (c : charac) : bool :=
+  match cvalue c with None => true | Some v => has_type (format c) v end.
+
+Lemma well_typed_typed c : well_typed c = true -> typed c = true.
+Proof. unfold well_typed, typed. destruct (cvalue c); [|reflexivity]. intros H. apply andb_true_iff in H. tauto. Qed.
+
+(** whatever range the stored value was checked against: one update never panics, keeps the type,
+    and what it stores (and hands to the callbacks) lies within the range in force *)
+Lemma update_typed c v o chk :
+  declared (format c) -> bounds_ok c = true -> typed c = true ->
+  exists c' cbs, update true c v o chk = Ok (c', cbs) /\ typed c' = true /\
+    format c' = format c /\ minv c' = minv c /\ maxv c' = maxv c /\
+    (cbs = [] /\ c' = c \/
+     exists cb, cbs = [cb] /\ has_type (format c) (cb_new cb) = true /\ within c (cb_new cb) = true /\
+                (p_read c = true -> cvalue c' = Some (cb_new cb)) /\ (p_read c = false -> cvalue c' = cvalue c)).
+Proof.
+  intros Hd Hb Hty.
+  (* reuse the one-step lemma on the characteristic with its value removed: conversion and clamping
+     do not look at the stored value *)
+  set (c0 := mkChar (format c) (p_read c) (p_write c) (p_event c) None (minv c) (maxv c) true).
+  assert (Hb0 : bounds_ok c0 = true) by exact Hb.
+  destruct (update_well_typed c0 v o false Hd Hb0 eq_refl) as (c1 & cbs1 & E1 & Hw1 & _).
+  unfold update in *. cbn [format cvalue upd_same c0] in E1.
+  change (clamp c0) with (clamp c) in E1.
+  destruct (convert true (format c) v) as [v1|] eqn:Ec.
+  2:{ exists c, []. repeat split; auto. }
+  assert (Hcl : clamp c0 v1 = clamp c v1) by reflexivity.
+  cbn [iface_eq negb andb] in E1. injection E1 as <- <-.
+  unfold well_typed in Hw1. cbn [cvalue format p_read c0] in Hw1.
+  assert (Hnew : has_type (format c) (clamp c v1) = true /\ within c (clamp c v1) = true).
+  { destruct (p_read c) eqn:Er.
+    - apply andb_true_iff in Hw1. exact Hw1.
+    - (* unreadable: redo it on a readable copy *)
+      set (c2 := mkChar (format c) true (p_write c) (p_event c) None (minv c) (maxv c) true).
+      destruct (update_well_typed c2 v o false Hd Hb eq_refl) as (c3 & cbs3 & E3 & Hw3 & _).
+      unfold update in E3. cbn [format cvalue upd_same c2] in E3. rewrite Ec in E3.
+      change (clamp c2 v1) with (clamp c v1) in E3. cbn [iface_eq negb andb p_read c2] in E3.
+      injection E3 as <- <-. unfold well_typed in Hw3. cbn [cvalue format] in Hw3.
+      apply andb_true_iff in Hw3. exact Hw3. }
+  destruct Hnew as [Ht2 Hin].
+  assert (He : exists b, iface_eq (cvalue c) (clamp c v1) = Some b).
+  { unfold iface_eq. destruct (cvalue c) as [x|]; [|eauto].
+    destruct (clamp c v1) eqn:Ecl; destruct x; eauto.
+    destruct (format c); cbn in Ht2; try discriminate; congruence. }
+  destruct He as [b He]. rewrite He.
+  destruct (b && negb (upd_same c))%bool; [exists c, []; repeat split; auto|].
+  destruct (chk && negb (p_write c))%bool; [exists c, []; repeat split; auto|].
+  eexists; eexists. split; [reflexivity|]. cbn [format minv maxv].
+  split.
+  - unfold typed. cbn [cvalue format]. destruct (p_read c); [exact Ht2|exact Hty].
+  - repeat split; auto. right. eexists. split; [reflexivity|]. cbn [cb_new cvalue].
+    repeat split; auto; intros ->; reflexivity.
+Qed.
+
+Definition step_ok (p : charac * list callback) : Prop :=
+  typed (fst p) = true /\
+  Forall (fun cb => has_type (format (fst p)) (cb_new cb) = true /\ within (fst p) (cb_new cb) = true) (snd p) /\
+  (snd p <> [] -> p_read (fst p) = true -> well_typed (fst p) = true).
+
+Definition redecl_ok (c : charac) (ops : list cop2) : Prop :=
+  forall mn mx, In (CRedeclare mn mx) ops -> bounds_ok (redeclare c mn mx) = true.
+
+(** C12 over histories in which the application declares the range again: no step panics, the type
+    is kept throughout, every value an update stores or hands to a callback lies within the range
+    in force at that moment, and after every storing update the characteristic is well typed *)
+Lemma crun2_redeclared : forall ops c,
+  declared (format c) -> bounds_ok c = true -> typed c = true -> redecl_ok c ops ->
+  exists tr, crun2 true c ops = Ok tr /\ Forall step_ok tr.
+Proof.
+  induction ops as [|op ops IH]; intros c Hd Hb Hty Hr; cbn [crun2].
+  - exists []. split; [reflexivity|constructor].
+  - assert (Hstep : exists c1 cbs1, cstep2 true c op = Ok (c1, cbs1) /\ step_ok (c1, cbs1) /\
+                      format c1 = format c /\ bounds_ok c1 = true).
+    { destruct op as [o|mn mx]; cbn [cstep2].
+      - assert (Hu : forall v og chk, exists c1 cbs1, update true c v og chk = Ok (c1, cbs1) /\ step_ok (c1, cbs1) /\
+                       format c1 = format c /\ bounds_ok c1 = true).
+        { intros v og chk.
+          destruct (update_typed c v og chk Hd Hb Hty) as (c1 & cbs1 & E & Ht1 & Hf & Hmn & Hmx & Hcase).
+          exists c1, cbs1. split; [exact E|]. split; [|split; [exact Hf|rewrite (bounds_ok_decl c c1) by assumption; exact Hb]].
+          unfold step_ok. cbn [fst snd]. split; [exact Ht1|].
+          destruct Hcase as [[-> ->]|(cb & -> & Hht & Hwi & Hrd & _)].
+          - split; [constructor|]. intros Hn. contradiction Hn. reflexivity.
+          - assert (Hwi1 : within c1 (cb_new cb) = true) by (unfold within in *; rewrite Hmn, Hmx; exact Hwi).
+            split.
+            + constructor; [|constructor]. rewrite Hf. split; assumption.
+            + intros _ Hp. unfold well_typed.
+              assert (Hpr : p_read c = true).
+              { unfold update in E. destruct (convert true (format c) v); [|discriminate].
+                destruct (iface_eq (cvalue c) (clamp c g)); [|discriminate].
+                destruct (b && negb (upd_same c))%bool; [discriminate|].
+                destruct (chk && negb (p_write c))%bool; [discriminate|].
+                injection E as <- _. exact Hp. }
+              rewrite (Hrd Hpr), Hf, Hht. exact Hwi1. }
+        destruct o as [v|k v|[k|] v]; cbn [cstep]; apply Hu.
+      - exists (redeclare c mn mx), []. split; [reflexivity|]. split; [|split; [reflexivity|apply Hr; left; reflexivity]].
+        unfold step_ok. cbn [fst snd]. split; [exact Hty|]. split; [constructor|]. intros Hn. contradiction Hn. reflexivity. }
+    destruct Hstep as (c1 & cbs1 & E & Hok & Hf & Hb1). rewrite E.
+    destruct (IH c1) as (tr & Etr & Htr).
+    + unfold declared in *. rewrite Hf. exact Hd.
+    + exact Hb1.
+    + apply Hok.
+    + intros mn mx Hin. specialize (Hr mn mx (or_intror Hin)).
+      unfold bounds_ok, redeclare in *. cbn [format minv maxv] in *. rewrite Hf. exact Hr.
+    + rewrite Etr. exists ((c1, cbs1) :: tr). split; [reflexivity|]. constructor; assumption.
+Qed.
+
+(** non-vacuous: a thermostat-like float characteristic, range 10..38 declared again as 15..30 *)
+Definition f10 : N := 4621819117588971520%N.
+Definition f15 : N := 4624633867356078080%N.
+Definition f30 : N := 4629137466983448576%N.
+Definition f35 : N := 4630122629401935872%N.
+Definition f38 : N := 4630967054332067840%N.
+Definition thermo : charac := mkChar FFloat true true true (Some (VFloat f10 0)) (BFloat f10) (BFloat f38) false.
+Lemma redeclared_nonvacuous :
+  declared (format thermo) /\ bounds_ok thermo = true /\ typed thermo = true /\
+  redecl_ok thermo [CUpd (CLocal (VFloat f35 35)); CRedeclare (BFloat f15) (BFloat f30); CUpd (CRemote 1 (VFloat f35 35))] /\
+  exists c1 c2 c3 cb1 cb3,
+    crun2 true thermo [CUpd (CLocal (VFloat f35 35)); CRedeclare (BFloat f15) (BFloat f30); CUpd (CRemote 1 (VFloat f35 35))]
+    = Ok [(c1, [cb1]); (c2, []); (c3, [cb3])] /\
+    cvalue c1 = Some (VFloat f35 0) /\ cvalue c2 = Some (VFloat f35 0) /\ well_typed c2 = false /\
+    cvalue c3 = Some (VFloat f30 0) /\ well_typed c3 = true.
+Proof.
+  split; [discriminate|]. split; [reflexivity|]. split; [reflexivity|]. split.
+  - intros mn mx [H|[H|[H|[]]]]; try discriminate. injection H as <- <-. reflexivity.
+  - do 5 eexists. split; [vm_compute; reflexivity|]. repeat split; reflexivity.
+Qed.
